@@ -164,8 +164,8 @@ package rle
 //@   ensures[C10] err == nil ==> (rfault ==> old(rfault))
 //@ loop readRLEBitPacked#1
 //@   invariant freshOrNil(out) && freshsince(rawBytes) && (rfault ==> old(rfault))
-//@   invariant[C04] 1 <= width && width <= 4 && wholeGroups(#rawBytes, width)
-//@   invariant[C04] #out * width + 8 * #rawBytes == 8 * width * (header / 2)
+//@   invariant[C04,C07] 1 <= width && width <= 4 && wholeGroups(#rawBytes, width)
+//@   invariant[C04,C07] #out * width + 8 * #rawBytes == 8 * width * (header / 2)
 // C04/C07: every value decoded so far is the LSB-first field of the bytes read for the run
 // (value e of group g occupies bits [w*e, w*e+w) of the little-endian integer formed by bytes
 // w*g .. w*g+w-1), whatever the number of groups
@@ -197,7 +197,7 @@ package rle
 //@   ensures[C10] err == nil ==> (rfault ==> old(rfault))
 //@ loop readRLE#1
 //@   invariant freshsince(out) && (rfault ==> old(rfault))
-//@   invariant[C04] 0 <= i && #out == count && count == header / 2
+//@   invariant[C04,C07] 0 <= i && #out == count && count == header / 2
 //@   invariant[C04,C07] forall k in 0..i: k < #out ==> out[k] == value
 
 //@ func readIntLittleEndianPaddedOnBitWidth
